@@ -4,8 +4,8 @@ package main
 
 import (
 	"fmt"
-	"os"
 	"go/types"
+	"os"
 	"strings"
 )
 
